@@ -10,7 +10,7 @@ for kind, parent in [
     ('LabtechError', 'Exception'), ('LabError', 'LabtechError'), ('RunnerError', 'LabtechError'),
     ('TaskDiedError', 'RunnerError'), ('TaskError', 'LabtechError'), ('StorageError', 'LabtechError'),
     ('SerializationError', 'LabtechError'), ('CacheError', 'LabtechError'), ('TaskNotFound', 'CacheError'),
-    ('FutureStateError', 'Exception'), ('OtherException', 'Exception'),
+    ('FutureStateError', 'Exception'), ('OtherException', 'Exception'), ('UnboundLocalError', 'Exception'),
 ]:
     R.exception(kind, parent)
 
